@@ -148,10 +148,11 @@ def gen_spec(rng, profile="full"):
         c = {"type": "measure", "axes": ax, "props": gen_props(rng, "measure", 0.2), "ncvar": names.draw(VAR_NAMES, 0.5),
              "dtype": num(), "mask": False, "measure": rng.choice(["area", "volume"])}
         if rng.random() < 0.25 and not core and kind == "field":
+            # (file-descriptor properties such as comment stay on the measure: C01-fix2-28.  Domains: C01-fix2-27 makes
+            # the write succeed, but cfdm.read(domain=True, external=) does not resolve the variable - see the report)
             c["external"] = True
             if c["ncvar"] is None:
                 c["ncvar"] = names.draw(VAR_NAMES + ["ext1", "ext2", "ext3"], 1.0)
-            c["props"].pop("comment", None)   # a file-descriptor property: becomes a global attribute of the external file
             if rng.random() < 0.15:
                 # as read from a file whose external variable was not resolved
                 c["nodata"] = True
@@ -420,13 +421,19 @@ def expected_findings(spec, opts):
         if any(cons[k].get("bounds") and not (o.get("bounds") and o["axes"][0] in cons[k]["axes"]) for k in ds):
             out.append("formula-terms:term-bounds-not-linked")
         n_eq = sum(1 for g0 in gms if g0["datum"] == r["datum"])
-        if not ((not gms and not r["datum"]) or (len(gms) == 1 and n_eq == 1) or
-                (len(gms) > 1 and (not r["datum"] or n_eq == 1))):
+        if len(gms) == 1 and not r["datum"] and gms[0]["datum"]:
+            # CF has one datum per data variable: a lone grid mapping's datum is also the vertical reference's
+            out.append("formula-terms:vertical-reference-takes-the-datum-of-the-lone-grid-mapping")
+        elif not ((not gms and not r["datum"]) or (len(gms) == 1 and n_eq == 1) or
+                  (len(gms) > 1 and (not r["datum"] or n_eq == 1))):
             out.append("formula-terms:vertical-datum-not-carried-by-a-grid-mapping")
         if any(j in g0["coords"] for g0 in gms for j in r["coords"]):
             out.append("formula-terms:grid-mapping-lists-the-vertical-coordinate")
-    if len(gms) > 1 and any(not g0["coords"] for g0 in gms):
-        out.append("grid-mapping-without-coordinates-among-several")
+    # the extended form of grid_mapping ("var: coord ...") is used when several grid mapping variables are written:
+    # several grid mappings, or one plus the one the writer makes for the datum of a vertical reference
+    made = any("dancs" in r and r["datum"] and all(r["datum"] != g0["datum"] for g0 in gms) for r in spec["refs"])
+    if (len(gms) > 1 or (gms and made)) and any(not g0["coords"] for g0 in gms):
+        out.insert(0, "grid-mapping-without-coordinates-among-several")
     if spec["kind"] == "domain" and any(ax["unlimited"] and not any(a in c["axes"] for c in cons)
                                         for a, ax in enumerate(spec["axes"])):
         out.append("domain-unlimited-axis-without-constructs-read-with-size-zero")
@@ -491,17 +498,19 @@ SIG_SYMPTOMS = {
 }
 
 
-def _fixed_signatures():
-    import os
-    try:
-        with open(os.path.join(os.path.dirname(os.path.dirname(os.path.dirname(os.path.abspath(__file__)))),
-                               "known_findings.d", "C01.json")) as fh:
-            return {k["signature"] for k in json.load(fh)["findings"] if k.get("status") == "fixed-pending"}
-    except (OSError, ValueError, KeyError):
-        return set()
-
-
-FIXED = _fixed_signatures()
+# classes repaired by handoff/C01-fix2-*.diff (status fixed-pending): not expected to manifest on the repaired tree
+FIXED = {
+    "endian-big-read-back-dtype-not-equal",                        # C01-fix2-4
+    "bounds-property-inherited-from-parent-dropped",               # C01-fix2-5, -7
+    "where-over-cell-method-taken-as-climatology",                 # C01-fix2-6
+    "netcdf4-classic-fill-value-after-data",                       # C01-fix2-2
+    "construct-without-axes-equals-raises",                        # C01-fix2-1
+    "second-external-variable-not-resolved",                       # C01-fix2-3
+    "formula-terms:term-bounds-not-linked",                        # C01-fix2-21
+    "formula-terms:variable-of-two-terms-read-twice",              # C01-fix2-22
+    "formula-terms:vertical-datum-not-carried-by-a-grid-mapping",  # C01-fix2-23, -24
+    "formula-terms:grid-mapping-lists-the-vertical-coordinate",    # C01-fix2-23
+}
 
 
 def residual_signature(extra, r):
